@@ -25,6 +25,13 @@ def bloom_cfg_hex(elements=50, hashers=2, maxbits=512, step=4, fpr=0.001):
     return struct.pack('<QQQQd', elements, hashers, maxbits, step, fpr).hex()
 
 
+def bloom_bits(elements=50, hashers=2, maxbits=512, fpr=0.001):
+    """the bit count Bloom::new chooses (float formula of src/filter/bloom.rs; an INPUT of the Coq model, checked
+    against the implementation's own answer by the C10 bloom stream)"""
+    from .c10 import bits_from_formula
+    return bits_from_formula(elements, hashers, maxbits, fpr)
+
+
 class Gen:
     def __init__(self, rng, K=None, dup=None, nkeys=None, maint=0.2, restart=0.04, bg=0.0, deletes=0.15,
                  metas=True, queries=('R', 'C', 'RD'), counts=False, lazy=None, group=None, bloom=None,
@@ -50,9 +57,10 @@ class Gen:
         self.is_open = False
 
     def cfg_line(self):
-        return 'cfg K=%d dup=%d group=%d bloom=%s init=%s runtime=%s%s' % (
+        return 'cfg K=%d dup=%d group=%d bloom=%s init=%s runtime=%s%s%s' % (
             self.K, self.dup, self.group, bloom_cfg_hex() if self.bloom else 'none',
-            'lazy' if self.lazy else 'eager', self.runtime, (' ' + self.extra_cfg) if self.extra_cfg else '')
+            'lazy' if self.lazy else 'eager', self.runtime, (' bloombits=%d' % bloom_bits()) if self.bloom else '',
+            (' ' + self.extra_cfg) if self.extra_cfg else '')
 
     def ts(self):
         r = self.rng
